@@ -370,6 +370,16 @@ func init() {
 		}
 		p.Note = fmt.Sprintf("fault kind %d at attempt %d", kind, k)
 		p.Until = t0 + 4*p.H + 5*T + p.TTL
+		if (kind == 6 || kind == 7) && r.Bool(0.4) {
+			// the vacancy is the instance's own to fill: it leads again within a second, possibly
+			// while the application's OnDemote for the term just lost is still running - and the
+			// record of that second term is lost as well, a few heartbeats into it
+			p.Insts[0].DemoteDur = Pick(r, []time.Duration{0, r.Dur(700*ms, 2*sec), r.Dur(2*sec, 2*sec+6*p.H)})
+			t1 := t0 + p.H + T + r.Dur(800*ms, 1500*ms+3*p.H)
+			p.Actions = append(p.Actions, Action{At: t1, Kind: Pick(r, []string{AOutDelete, AExpire, AOutPut}), Key: "g1", Value: []byte(`{"id":"intruder","token":"00000000-0000-4000-8000-000000000002","priority":7}`)})
+			p.Until = t1 + 4*p.H + 5*T + p.TTL
+			p.Note += " second loss"
+		}
 		lateOnDemote(r, p, 0.15)
 		p.Tail = 0
 		p.Sched = SchedCfg{YieldProb: Pick(r, []float64{0, 0.2}), StallMax: Pick(r, []time.Duration{0, 0, p.H / 50})}
@@ -1642,6 +1652,48 @@ func init() {
 		}
 		p.Tail = 0
 		p.Sched = SchedCfg{YieldProb: Pick(r, []float64{0, 0.2, 0.5}), StallMax: Pick(r, []time.Duration{0, 0, p.H / 20, p.H})}
+		return p
+	}
+}
+
+func init() {
+	// "c02restart": fault-free (every operation below H/2, stalls at most H/50). The leader shuts down
+	// gracefully with DeleteKey and the application starts the same election object again while that
+	// call is still busy deleting the key: at the invocation, the application or the answer of the
+	// Delete (or a little later). The run that Start begins meets the previous term's record, which is
+	// about to disappear under it; other instances follow and fill the vacancy.
+	families["c02restart"] = func(r *Rng) *Plan {
+		p := &Plan{Judge: []string{"C02", "C07", "C01", "C05", "C08", "C18", "C19"}, StartDuringStop: true,
+			NoJudge: []string{"C09"}}
+		baseTiming(r, p, []time.Duration{100 * ms, 200 * ms, 500 * ms, 1 * sec, 2 * sec})
+		n := 1 + r.Intn(3)
+		p.Insts = mkInsts(r, n, 1)
+		for i := range p.Insts {
+			p.Insts[i].V = Pick(r, []time.Duration{0, p.H, 2 * p.H})
+		}
+		p.Store = healthyStore(r, p.H/2)
+		p.Actions = append(p.Actions, Action{At: 0, Kind: AStart, Inst: 0})
+		for i := 1; i < n; i++ {
+			p.Actions = append(p.Actions, Action{At: r.Dur(p.H/2, 2*p.H), Kind: AStart, Inst: i})
+		}
+		t := r.Dur(2*p.H, 6*p.H)
+		cycles := 1 + r.Intn(3)
+		nDel := 0
+		for k := 0; k < cycles; k++ {
+			p.Actions = append(p.Actions, Action{At: t, Kind: AStopCtx, Inst: 0, DeleteKey: true, WaitForDemote: r.Bool(0.3)})
+			nDel++
+			for j := 0; j < 1+r.Intn(2); j++ {
+				p.Actions = append(p.Actions, Action{Kind: AStart, Inst: 0, OpN: nDel, OpKind: "delete", Phase: Pick(r, []string{"invoke", "invoke", "apply", "return"}),
+					Delay: Pick(r, []time.Duration{0, 0, r.Dur(0, p.H/10), r.Dur(0, p.H)})})
+			}
+			// in case the instance did not lead (no Delete was issued): start it again later anyway
+			p.Actions = append(p.Actions, Action{At: t + r.Dur(p.H, 3*p.H), Kind: AStart, Inst: 0})
+			t += r.Dur(p.TTL+2*p.H, 2*p.TTL+4*p.H)
+		}
+		p.Until = t + p.TTL
+		p.Tail = p.TTL + 2*sec
+		statusCalls(r, p)
+		p.Sched = SchedCfg{YieldProb: Pick(r, []float64{0, 0.1, 0.4}), StallMax: Pick(r, []time.Duration{0, 0, p.H / 50})}
 		return p
 	}
 }
